@@ -670,8 +670,12 @@ fn p_mock_pattern<C: Mk>(toks: &[&str]) -> String {
     let rows = rows_of(toks);
     let refs: Vec<&str> = rows.iter().map(|s| s.as_str()).collect();
     let mut r = Ref::default();
+    // lower-case hex digits are an accepted spelling of the upper-case ones (char::to_digit); Debug prints upper case
+    let hexy = C::NAME == "Gray4" || C::NAME == "Gray8";
+    let canon = |ch: char| if hexy && ('a'..='f').contains(&ch) { ch.to_ascii_uppercase() } else { ch };
     for (y, row) in rows.iter().enumerate() {
         for (x, ch) in row.chars().enumerate() {
+            let ch = canon(ch);
             if ch != ' ' {
                 match doc_char_to_raw::<C>(ch) {
                     Some(v) => { r.map.insert((x as i32, y as i32), v); }
@@ -687,7 +691,7 @@ fn p_mock_pattern<C: Mk>(toks: &[&str]) -> String {
     if let Err(e) = agree(&d, &r, &[]) { return format!("FAIL from_pattern: {}", e); }
     let s = match guarded(|| format!("{:?}", d)) { Ok(s) => s, Err(k) => return format!("FAIL Debug panicked: {}", k) };
     // expected text, written from the documentation of the format
-    let mut want_rows: Vec<String> = rows.iter().map(|row| format!("{:<64}", row)).collect();
+    let mut want_rows: Vec<String> = rows.iter().map(|row| format!("{:<64}", row.chars().map(canon).collect::<String>())).collect();
     while want_rows.last().map_or(false, |l| l.chars().all(|c| c == ' ')) { want_rows.pop(); }
     let mut want = String::from("MockDisplay[\n");
     for l in &want_rows { want.push_str(l); want.push('\n'); }
